@@ -135,6 +135,12 @@ pub fn gen(rng: &mut Rng, size: usize) -> Value {
             }
         }
     }
+    // bytes that are special to SOME readers but not to this one: a byte order mark, blanks
+    if bytes.is_empty() && rng.chance(1, 5) {
+        bytes.extend(*rng.pick(&[&[0xEFu8, 0xBB, 0xBF][..], &b" "[..], &b"\n\n"[..], &[0xFEu8, 0xFF][..], &b"\t"[..]]));
+        if rng.chance(1, 3) { bytes.extend(b")]}'\n"); }
+        header_ok = false;   // no claim about validity for these
+    }
     let hdr_len = bytes.len();
     // document
     let doc = if rng.chance(1, 3) { crate::c02::gen_index_doc(rng, size, 1) } else { { let h = rng.chance(1, 5); crate::c02::gen_flat_doc(rng, size, h) } };
@@ -142,6 +148,16 @@ pub fn gen(rng: &mut Rng, size: usize) -> Value {
     d.as_object_mut().unwrap().remove("junk");
     let mut body = write_doc(&d);
     let mut valid = header_ok;
+    if rng.chance(1, 8) {
+        // serde-derived structs also deserialise from a positional JSON array: the detection struct has
+        // 8 fields (version, file, sources, sourceRoot, sourcesContent, sections, names, mappings)
+        body = match rng.below(3) {
+            0 => br#"[3,null,["a.js"],null,null,null,["x"],"AAAAA"]"#.to_vec(),
+            1 => br#"[3,"f.js",["a.js"],"r",[null],null,[],"AAAA"]"#.to_vec(),
+            _ => br#"[null,null,null,null,null,[],null,null]"#.to_vec(),
+        };
+        valid = false;
+    }
     match rng.below(6) {
         0 => { let n = rng.below(body.len() as u64) as usize; body.truncate(n); valid = false; }     // truncated
         1 => { let k = rng.below(body.len() as u64) as usize; body[k] = *rng.pick(&[b'}', b'"', b'x', 0, b',']); valid = false; } // corrupted (may still parse)
